@@ -110,6 +110,18 @@ def correspond(model_ok, res):
             sub = [lib.g_str(strings[idx[i]]) for i in badspec]
             isf4 = lib.eval_cases("C03f", imports, defs2, sub, "chk", shard=150)
             f4 = set(badspec[j] for j in isf4)
+        # is the guard of C03d_grammar_outside_f4 the narrowest?  Every accepted input in F4's class should get a
+        # tree that differs from the dictated one (measured, not a violation of C03 if it does not)
+        cand = [j for j in range(len(cases)) if results[idx[j]][0] == "ok"
+                and any(c in strings[idx[j]] for c in ("+", "-", "TO"))]
+        if cand:
+            defs3 = ("Definition chk (s : str) : bool := negb (f4_input (map tok_key (fst (lex s)))).")
+            inf4 = lib.eval_cases("C03g", imports, defs3, [lib.g_str(strings[idx[j]]) for j in cand], "chk", shard=150)
+            inf4 = [cand[j] for j in inf4]
+            agreeing = [strings[idx[j]] for j in inf4 if j not in set(badspec)]
+            res.distribution["f4_class_inputs_accepted"] = len(inf4)
+            res.distribution["f4_class_inputs_agreeing_with_spec"] = len(agreeing)
+            res.distribution["f4_class_agreeing_samples"] = agreeing[:5]
         for i in badspec:
             s = strings[idx[i]]
             k, v = results[idx[i]]
@@ -129,6 +141,12 @@ SPEC = {
     "more": [{"module": "C03c", "target": "props/C03c.vo",
               "theorems": ["C03c_precedence", "C03c_precedence_parse", "C03c_grammar_trees",
                            "C03c_grammar_trees_parse", "C03c_grammar_trees_value"]},
+             {"module": "C03d", "target": "props/C03d.vo",
+              "theorems": ["C03d_grammar_trees", "C03d_grammar_trees_parse", "C03d_grammar_trees_value",
+                           "C03d_extends_C03c", "C03d_spec_total", "C03d_sign_table_facts",
+                           "C03d_unguarded_refuted", "C03d_guard_is_f4_complement",
+                           "C03d_trees_are_the_grammar", "C03d_accepted_derivable", "C03d_accepted_is_query",
+                           "C03d_rejects_non_queries", "C03d_grammar_outside_f4"]},
              {"module": "Lrespace", "target": "props/Lrespace.vo",
               "theorems": ["L_respace", "L_respace_parse", "L_respace_accept",
                            "L_respace_no_sep_condition_refuted"]}],
@@ -136,16 +154,23 @@ SPEC = {
     "statement": "(a) for ANY LR tables, inputs with the same (type, lexeme) token sequence have equal trees up to "
                  "layout (or errors of the same class); (b) reserved words are operators only as whole lexemes, "
                  "bracket kind and =/no = decide inclusiveness; (c) agreement with the documented grammar "
-                 "(reference parser Grammar.v) is refuted by F4 and otherwise validated exhaustively on short "
-                 "token sequences",
+                 "(reference parser Grammar.v): for EVERY input the lexer accepts and that is outside finding F4's "
+                 "class (Grammar.f4_input = false), the parser returns a tree iff the documented grammar derives the "
+                 "token sequence, and then the tree is the dictated one (C03d_grammar_outside_f4); the unguarded "
+                 "statement is refuted by F4 (a AND b -c)",
     "level_text": "Coq proof of layout independence for any tables (lock-step simulation of two LR runs) and of the "
                   "lexical clauses on the lexer model; clause (c) — the tree is the one the documented grammar "
-                  "dictates — is PARTIAL: proved (C03c.v, symbolic execution of the driver on the generated tables by "
-                  "structural induction, table entries as computed facts) for all yields of well-formed syntax trees of "
-                  "the documented grammar without a signed operand in juxtaposition; the full statement is refuted by the "
-                  "F4 witness; what the theorem leaves out (bracketed ranges, juxtaposed +/-/TO operands, rejection of "
-                  "non-queries) is validated by comparing the implementation with the reference parser on every "
-                  "token-type sequence up to length 3 (4 in the thorough tier) and on generated queries, on every run.",
+                  "dictates — is proved for every input outside F4's class and refuted on F4: C03c.v/C03d.v, symbolic "
+                  "execution of the driver on the generated tables by structural induction over syntax trees of the "
+                  "documented grammar (three operator levels, prefixes, fields, groups, fuzzy/proximity/boost, TO, open "
+                  "and bracketed ranges with every bound form, signed operands in juxtaposition under the guard "
+                  "f4free = complement of F4's predicate), table entries as computed facts; the converse by an "
+                  "LR-stack invariant carrying derivations (accepted => derivable by the generated productions with "
+                  "the tree as semantic value), language inclusion of the PLY grammar in the documented one, and "
+                  "completeness of the syntax-tree type w.r.t. the reference parser.  Still validated only: that the "
+                  "guard is the narrowest (every accepted input in F4's class really gets a different tree) — measured on "
+                  "every token-type sequence up to length 3 (4 thorough) and on generated queries, on every run "
+                  "(distribution.f4_class_inputs_agreeing_with_spec, expected 0).",
     "trusted_base": [
         "Coq 8.16.1 kernel (vm_compute for witnesses and correspondence; no native_compute); no axioms",
         "gen/gen_parser.py: live PLY tables, token rules, reserved words",
